@@ -3,6 +3,7 @@ CONSTANT MaxIv = 3
 CONSTANT Horizon = 9
 CONSTANT MaxD = 7
 CONSTANT MaxOps = 9
+CONSTANT Stricts = {TRUE}
 CONSTANT T0s = {0, 2}
 CONSTRAINT Bound
 VIEW View
